@@ -30,6 +30,8 @@ type fakeRpc struct {
 	// txOutHook, when set, answers GetTxOut instead of the view (n = running number of the call); it may block
 	txOutHook func(n int) (*txwatcher.TxOutResp, error)
 	txOutN    int
+	// byTx, when set, answers GetTxOut per transaction id (several watches on one watcher)
+	byTx func(txid string) (*txwatcher.TxOutResp, error)
 }
 
 func (f *fakeRpc) set(v rpcView) {
@@ -68,8 +70,13 @@ func (f *fakeRpc) GetBlockHash(h uint32) (string, error) {
 	return hashOf(h), nil
 }
 
-func (f *fakeRpc) GetTxOut(string, uint32) (*txwatcher.TxOutResp, error) {
+func (f *fakeRpc) GetTxOut(txid string, _ uint32) (*txwatcher.TxOutResp, error) {
 	f.mu.Lock()
+	if f.byTx != nil {
+		h := f.byTx
+		f.mu.Unlock()
+		return h(txid)
+	}
 	if f.txOutHook != nil {
 		f.txOutN++
 		n, h := f.txOutN, f.txOutHook
